@@ -6,6 +6,7 @@ mod c02;
 mod c03;
 mod c17;
 mod c18;
+mod c19;
 mod util;
 
 fn main() {
@@ -23,6 +24,7 @@ fn main() {
         "c17" => c17::main(&args),
         "c02" => c02::main(&args),
         "c18" => c18::main(&args),
+        "c19" => c19::main(&args),
         other => {
             eprintln!("unknown property {other}");
             std::process::exit(2);
